@@ -14,7 +14,7 @@ import (
 func init() {
 	register(&Spec{ID: "C12", Title: "Logical channels are isolated and correctly routed under concurrency", Run: runC12,
 		Meta: core.Meta{
-			Explanation: "R12.23 = R08.8, R12.24 = R15.7. R12.21 = R14.5, R12.22 = R01.17. R12.19 = R13.7 (a recursive RLock deadlocks as soon as a Close asks for the write lock between the two acquisitions, and the reader then stalls every channel). R12.20 = R15.4. R12.18 = R14.1 (every failure return after a transport read carries the read error itself or wrapped with %w — Conn.ReadFrom routes the last packet of a stream on errors.Is(err, io.EOF)). R12.17 = R13.3 (every use of packageCh/errCh in the channel's methods is dominated by the not-closed edge of the `closed` test taken under the channel lock). R12.16: every non-constant store of Channel.curPacketNr dominates a Packet.WriteTo in the same innermost loop (numbers are not handed out ahead of the send loop). R12.15 = R01.15 (PacketHeader.Read/Write put and take the 16-bit channel id at offset 4 with the big-endian two-byte codec). R12.14 = R13.9 (no function holds Conn.tdsChannelsLock across an operation that can block on a package/error queue: a reader parked on one channel's full queue would block NewChannel and Close of every other channel). R12.13 = R02.11 (no function outside the reader goroutine's path uses Channel.queueRx: a partly received package is not thrown away by a send on the same channel). Lockset and routing rules; schedules are not explored. R12.1 (E-LOCK, guarded-by table confirmed by reading): Conn.tdsChannels is read only under tdsChannelsLock (R or W) and written only under W (objects under construction exempt); Conn.tdsChannelCurFreeId is touched only through sync/atomic or under W; Channel.closed is read under the channel's RWMutex and written under W; the hook slices are accessed under one mutex. The must-lockset is computed per function over SSA (Lock/RLock add, Unlock/RUnlock remove, deferred unlocks keep the lock to the exit, unexported callees inherit the meet over their call sites). R12.2: in Conn.ReadFrom the receiver of WritePacket is the comma-ok result of tdsChannels[int(packet.Header.Channel)] for the packet just read, and the !ok edge reports on Conn.errCh and continues. R12.3: sendPacket stamps Header.Channel from channelId and Header.PacketNr from curPacketNr on the channelId > 0 edge and advances curPacketNr by one modulo 2^bits(PacketNr). R12.4: NewChannel registers the channel under the id it stores in channelId; Close deletes that id under the write lock. R12.5: the set-up acknowledgement test in NewChannel uses a type assertion that some producer can satisfy and is followed by the PROTACK test. R12.7: the id returned by getValidChannelId is computed from the result of the atomic add on tdsChannelCurFreeId (or is the id of the recursive attempt) and the counter is never read by a separate atomic load. R12.8 = R01.7: Packet.WriteTo hands the serialised packet to the transport in exactly one Write (channels share the transport without a send lock; two writes let another channel's packet land between header and body). R12.9: no `go` statement occurs in any function statically reachable from (*Conn).ReadFrom — a hand-over finished by a helper goroutine lets packages of one channel overtake each other. R12.10 = R14.4 (every path of the reader loop with a completely received packet reaches WritePacket or reports the unknown channel on Conn.errCh — no kind of packet is dropped silently). R12.11: no function of package tds (outside init) stores into an element of a package-level array/slice of basic elements or hands (a slice of) one to a call — such a buffer is shared by the reader goroutines of all connections and by all sending channels. R12.12 = R02.1 (in WritePacket the position restored after a failed attempt is the one saved immediately before that attempt; a position saved once per packet lets a delivered package be parsed and delivered again). R12.6: WritePacket tests `closed` under the channel lock before it touches the queues. R12.4 also requires that the registration in tdsChannels dominates the sending of the set-up packet (the acknowledgement can be routed as soon as the packet is out).",
+			Explanation: "R12.25: no error queue (chan error) of package tds is created with a constant zero buffer: the reader goroutine reports errors with a plain send. R12.23 = R08.8, R12.24 = R15.7. R12.21 = R14.5, R12.22 = R01.17. R12.19 = R13.7 (a recursive RLock deadlocks as soon as a Close asks for the write lock between the two acquisitions, and the reader then stalls every channel). R12.20 = R15.4. R12.18 = R14.1 (every failure return after a transport read carries the read error itself or wrapped with %w — Conn.ReadFrom routes the last packet of a stream on errors.Is(err, io.EOF)). R12.17 = R13.3 (every use of packageCh/errCh in the channel's methods is dominated by the not-closed edge of the `closed` test taken under the channel lock). R12.16: every non-constant store of Channel.curPacketNr dominates a Packet.WriteTo in the same innermost loop (numbers are not handed out ahead of the send loop). R12.15 = R01.15 (PacketHeader.Read/Write put and take the 16-bit channel id at offset 4 with the big-endian two-byte codec). R12.14 = R13.9 (no function holds Conn.tdsChannelsLock across an operation that can block on a package/error queue: a reader parked on one channel's full queue would block NewChannel and Close of every other channel). R12.13 = R02.11 (no function outside the reader goroutine's path uses Channel.queueRx: a partly received package is not thrown away by a send on the same channel). Lockset and routing rules; schedules are not explored. R12.1 (E-LOCK, guarded-by table confirmed by reading): Conn.tdsChannels is read only under tdsChannelsLock (R or W) and written only under W (objects under construction exempt); Conn.tdsChannelCurFreeId is touched only through sync/atomic or under W; Channel.closed is read under the channel's RWMutex and written under W; the hook slices are accessed under one mutex. The must-lockset is computed per function over SSA (Lock/RLock add, Unlock/RUnlock remove, deferred unlocks keep the lock to the exit, unexported callees inherit the meet over their call sites). R12.2: in Conn.ReadFrom the receiver of WritePacket is the comma-ok result of tdsChannels[int(packet.Header.Channel)] for the packet just read, and the !ok edge reports on Conn.errCh and continues. R12.3: sendPacket stamps Header.Channel from channelId and Header.PacketNr from curPacketNr on the channelId > 0 edge and advances curPacketNr by one modulo 2^bits(PacketNr). R12.4: NewChannel registers the channel under the id it stores in channelId; Close deletes that id under the write lock. R12.5: the set-up acknowledgement test in NewChannel uses a type assertion that some producer can satisfy and is followed by the PROTACK test. R12.7: the id returned by getValidChannelId is computed from the result of the atomic add on tdsChannelCurFreeId (or is the id of the recursive attempt) and the counter is never read by a separate atomic load. R12.8 = R01.7: Packet.WriteTo hands the serialised packet to the transport in exactly one Write (channels share the transport without a send lock; two writes let another channel's packet land between header and body). R12.9: no `go` statement occurs in any function statically reachable from (*Conn).ReadFrom — a hand-over finished by a helper goroutine lets packages of one channel overtake each other. R12.10 = R14.4 (every path of the reader loop with a completely received packet reaches WritePacket or reports the unknown channel on Conn.errCh — no kind of packet is dropped silently). R12.11: no function of package tds (outside init) stores into an element of a package-level array/slice of basic elements or hands (a slice of) one to a call — such a buffer is shared by the reader goroutines of all connections and by all sending channels. R12.12 = R02.1 (in WritePacket the position restored after a failed attempt is the one saved immediately before that attempt; a position saved once per packet lets a delivered package be parsed and delivered again). R12.6: WritePacket tests `closed` under the channel lock before it touches the queues. R12.4 also requires that the registration in tdsChannels dominates the sending of the set-up packet (the acknowledgement can be routed as soon as the packet is out).",
 			NotDecided:  "Interleavings and data races on fields used by one goroutine per channel by contract (curPacketNr, CurrentHeaderType, packetSize) are not decided; the race detector is another technique family.",
 			Assumptions: []string{"sync.RWMutex / sync/atomic semantics", "fields outside the guarded-by table are confined to one goroutine by the library's contract"},
 		}})
@@ -70,6 +70,8 @@ func runC12(r *core.Run) {
 	defer packSizeEveryMember(r, "R12.23")
 	r.Rule("R12.24", "a sent packet leaves the transmit queue (R15.7): the peer sees every packet once", 1, false)
 	defer c15Discard(r, "R12.24")
+	r.Rule("R12.25", "a parse error on one channel does not park the reader all channels share", 2, false)
+	defer errQueuesBuffered(r, "R12.25")
 
 	table := []guardedField{
 		{p.Field("tds", "Conn", "tdsChannels"), "tdsChannelsLock", false, true},
